@@ -14,9 +14,11 @@ class C02(rt.RoundTrip):
     policy = {"absent_default": ("absent", "zero", "none"), "ret_absent_default": ("absent", "zero", "none"), "summary_exact": True, "none_for_any_type": True, "default_sentence": "stripped"}
 
     def option_list(self):
+        # one deviation per remaining option: the class is emitted with a __call__ (emit_call), the parser infers types
+        dev = [{"edd": False, "ww": True, "call": True}, {"edd": False, "ww": True, "pinfer": True}]
         if self.tier == "thorough":
-            return [{"edd": e, "ww": w} for e in (False, True) for w in (True, False)]
-        return [{"edd": False, "ww": True}, {"edd": True, "ww": True}]
+            return [{"edd": e, "ww": w} for e in (False, True) for w in (True, False)] + dev + [{"edd": True, "ww": True, "pinfer": True}]
+        return [{"edd": False, "ww": True}, {"edd": True, "ww": True}] + dev
 
 
 CHECK = C02
